@@ -197,11 +197,19 @@ func AnyUniverse(block int) *Univ {
 	return MakeUniv([]string{"any/leaves", "any/depth1", "any/depth2-3"}[block], vals)
 }
 
-// NumUniverses is the number of corner universes (typed + three any blocks).
-func NumUniverses() int { return len(TypedUniverses()) + 3 }
+// NumTyped is the number of typed corner universes; it is a constant so that
+// no repository code runs while the binary initialises (UniverseByIndex checks it).
+const NumTyped = 35
 
+// NumUniverses is the number of corner universes (typed + three any blocks).
+func NumUniverses() int { return NumTyped + 3 }
+
+// UniverseByIndex returns nil when the table and the constant disagree.
 func UniverseByIndex(i int) *Univ {
 	t := TypedUniverses()
+	if len(t) != NumTyped {
+		return nil
+	}
 	if i < len(t) {
 		return t[i]
 	}
